@@ -836,17 +836,26 @@ func (r *cliRun) cbGate(p string, m cgate) {
 	r.settleEnv()
 }
 
-// numGor samples the goroutine count; a goroutine that has finished but not yet been
-// reaped is still counted for an instant, so the minimum of several samples is taken.
+// numGor counts the goroutines of the current synctest bubble (runtime.NumGoroutine also
+// counts goroutines outside it, some of them transient): the headers of a full stack dump
+// name the bubble of each goroutine.
 func numGor() int {
-	best := runtime.NumGoroutine()
-	for i := 0; i < 50 && best > 0; i++ {
-		runtime.Gosched()
-		if n := runtime.NumGoroutine(); n < best {
-			best = n
+	buf := make([]byte, 1<<18)
+	for {
+		n := runtime.Stack(buf, true)
+		if n < len(buf) {
+			buf = buf[:n]
+			break
+		}
+		buf = make([]byte, 2*len(buf))
+	}
+	cnt := 0
+	for _, line := range strings.Split(string(buf), "\n") {
+		if strings.HasPrefix(line, "goroutine ") && strings.Contains(line, "synctest bubble") {
+			cnt++
 		}
 	}
-	return best
+	return cnt
 }
 
 func (r *cliRun) logParked() { r.log.item("parked\t%s", r.sc.parkedLine()) }
